@@ -463,6 +463,10 @@ def main(argv=None):
             mod.correspondence(ctx)
         except (Infra, subprocess.TimeoutExpired):
             raise
+        except TieBroken as e:
+            # a stream that needs the translated tables and cannot get them: the tie is (already) broken, go on
+            ctx.broken.append("correspondence: %s" % e)
+            ctx.disagreements.append({"stream": "tie-broken", "input": None, "impl": str(e)[:300], "model": "translator output"})
         except Exception as e:
             # an exception that escapes from pyYeti's own code on an input the harness holds to be valid is a
             # broken tie (the model does not raise there), not an infrastructure failure: go on to the search
@@ -481,6 +485,8 @@ def main(argv=None):
             mod.search(ctx, [d for d in ctx.disagreements if d.get("input") is not None])
         except (Infra, subprocess.TimeoutExpired):
             raise
+        except TieBroken as e:
+            ctx.broken.append("oracle: %s" % e)
         except Exception as e:
             where = _raised_in_repo(e)
             if not where:
